@@ -353,12 +353,52 @@ def linearisation(ctx):
         f = P.func(RF.READER + '.' + name)
         diag = f.params[1]
         calls = [c for c in ast.walk(f.node) if isinstance(c, ast.Call) and U(c.func) == 'self.get_trace' and c.args]
-        if len(calls) < 2:
-            raise AnalysisError('%s: expected two get_trace call sites (the two halves of the diagonal family)' % name)
+        # index expressions with the node whose enclosing test selects the half: the call itself, or - when the index
+        # is computed into a local first - each definition of that local
+        sites = []
         for c in calls:
-            p = ev(c.args[0], diag)
+            a0 = c.args[0]
+            defs = [n for n in ast.walk(f.node) if isinstance(n, ast.Assign) and len(n.targets) == 1 and
+                    isinstance(a0, ast.Name) and U(n.targets[0]) == a0.id] if isinstance(a0, ast.Name) else []
+            if defs:
+                sites.extend((n.value, n, c) for n in defs)
+            else:
+                sites.append((a0, c, c))
+        if len(sites) < 2:
+            raise AnalysisError('%s: expected two get_trace call sites (the two halves of the diagonal family)' % name)
+        for (iexpr, anchor, c) in sites:
+            # the running variable of the diagonal: target of the innermost enclosing loop over a range
+            dname = None
+            q = parent(anchor)
+            while q is not None and q is not f.node and dname is None:
+                if isinstance(q, ast.For):
+                    it, tg = q.iter, q.target
+                    if isinstance(it, ast.Call) and U(it.func) == 'enumerate' and it.args and isinstance(tg, ast.Tuple) and len(tg.elts) == 2:
+                        it, tg = it.args[0], tg.elts[1]
+                    if isinstance(it, ast.Call) and U(it.func) == 'range' and isinstance(tg, ast.Name):
+                        dname = tg.id
+                q = parent(q)
+            if dname is None:
+                raise AnalysisError('%s: the loop variable running along the diagonal was not found' % name)
+
+            def ev2(e, depth=0):
+                if isinstance(e, ast.Name) and e.id == dname:
+                    return d
+                if isinstance(e, ast.Name) and e.id not in f.params and depth < 4:
+                    ds = [n for n in ast.walk(f.node) if isinstance(n, ast.Assign) and len(n.targets) == 1 and U(n.targets[0]) == e.id]
+                    if len(ds) == 1:
+                        return ev2(ds[0].value, depth + 1)
+                if isinstance(e, ast.BinOp):
+                    l, r = ev2(e.left, depth), ev2(e.right, depth)
+                    if l is None or r is None:
+                        return None
+                    return l + r if isinstance(e.op, ast.Add) else l - r if isinstance(e.op, ast.Sub) else l * r if isinstance(e.op, ast.Mult) else None
+                if isinstance(e, ast.Name) and e.id == 'd':
+                    return None
+                return ev(e, diag)
+            p = ev2(iexpr)
             if p is None:
-                raise AnalysisError('%s: trace index `%s` does not normalise' % (name, U(c.args[0])))
+                raise AnalysisError('%s: trace index `%s` does not normalise' % (name, U(iexpr)))
             # coefficient of d must be N1 + slope_xl: IL part has slope +1 (radix N1), XL part slope +-1
             coef_d = Poly({k: v for k, v in p.t.items() if any(a == 'd' for a, e in k)})
             coef_d = T.exact_div(coef_d, d)
@@ -368,7 +408,7 @@ def linearisation(ctx):
             # the start trace (d = 0) lies on an edge of the grid: IL*N1 + XL with IL or XL at an end
             edge_ok = rest in (cd * N1, -cd + 0 * N1, cd + 0 * N1, (cd - N1 + 1) * N1 + N1 - 1)
             # the start belongs to the half of the family selected by the enclosing test
-            q, child, side = parent(c), c, None
+            q, child, side = parent(anchor), anchor, None
             while q is not None and q is not f.node:
                 if isinstance(q, ast.If) and isinstance(q.test, ast.Compare) and len(q.test.ops) == 1 and U(q.test.left) == diag:
                     inbody = any(child is s_ or any(child is x for x in ast.walk(s_)) for s_ in q.body)
